@@ -8,7 +8,7 @@ from checks import lach_common as lc
 def run(c):
     ex = lc.run_exhaustive(c, c.pick(["x31lazy_6"], ["x31lazy_7_full", "x31_8_full", "x11_8_full"]), "frame-rule")
     c.guard("model_states", ex["total"]["states"])
-    res = lc.run_profile(c, "c04", c.pick(14, 140), "frame-rule")
+    res = lc.run_profile(c, "c04", c.pick(21, 210), "frame-rule")
     st = res["stats"]
     c.guard("clone_rejected", st.get("clone_rejected", 0))
     c.guard("builds", st.get("builds", 0))
